@@ -193,6 +193,55 @@ func (s *scanner) ReadIndirectObject() (Native, Reference, error) {
 	return obj, ref, nil
 }
 
+// readReferenceTail is called after the integer a has been read.  It reports
+// whether the following bytes complete an indirect reference "a g R" which
+// ends at or before the position end (end < 0 means that there is no limit).
+// The scanner position after the call is only meaningful if a reference was
+// found.
+func (s *scanner) readReferenceTail(a Integer, end int64) (Reference, bool, error) {
+	notFound := func(err error) (Reference, bool, error) {
+		if IsReadError(err) && !isEndOfData(err) {
+			return 0, false, err
+		}
+		return 0, false, nil
+	}
+
+	err := s.SkipWhiteSpace()
+	if err != nil {
+		return notFound(err)
+	}
+	b, err := s.ReadInteger()
+	if err != nil {
+		return notFound(err)
+	}
+	err = s.SkipWhiteSpace()
+	if err != nil {
+		return notFound(err)
+	}
+	err = s.SkipString("R")
+	if err != nil {
+		return notFound(err)
+	}
+	pos := s.CurrentPos()
+	if end >= 0 && pos > end {
+		return 0, false, nil
+	}
+	if end < 0 || pos < end {
+		// the "R" must not be the start of a longer token
+		buf, err := s.PeekN(1)
+		if err != nil {
+			return notFound(err)
+		}
+		if len(buf) > 0 && class[buf[0]] == regular {
+			return 0, false, nil
+		}
+	}
+	if a < 0 || a >= maxXRefSize || b < 0 || b > maxGeneration {
+		return 0, false, nil
+	}
+	return NewReference(uint32(a), uint16(b)), true, nil
+}
+
 // isEndOfData reports whether err stands for the end of the input rather
 // than for a failure of the underlying reader.
 func isEndOfData(err error) bool {
